@@ -8,7 +8,8 @@
 (***************************************************************************)
 EXTENDS Spake2, Toy
 
-CONSTANTS T2P, T2Q, T2G, T2BY      \* the second group (same kind as the first)
+CONSTANTS T2P, T2Q, T2G, T2BY,     \* the second group (same kind as the first)
+          T3P, T3G                  \* integer groups: a third group with the SAME q and element size, another p
 
 G1 == ToyGroup
 G2 == IF TKIND = "int" THEN [kind |-> "int", p |-> T2P, q |-> T2Q, g |-> T2G]
@@ -22,7 +23,9 @@ Family == [base  |-> Base0,
            Ndiff |-> [Base0 EXCEPT !.N = GMul(G1, GBase(G1), 1)],
            Sdiff |-> [Base0 EXCEPT !.S = GMul(G1, GBase(G1), 1)],
            gen   |-> [Base0 EXCEPT !.grp = G1alt],
-           other |-> ParamsFrom(G2, 2, 3, 4)]
+           other |-> ParamsFrom(G2, 2, 3, 4),
+           sameq |-> IF TKIND = "int" THEN ParamsFrom([kind |-> "int", p |-> T3P, q |-> TQ, g |-> T3G], 2, 3, 4)
+                     ELSE ParamsFrom(G2, 3, 2, 4)]
 MC_ParamSets == {Family[k] : k \in DOMAIN Family}
 MC_Passwords == {PwOfClass(1, 0), PwOfClass(0, 0)}
 MC_IdPairs == {<<<<97>>, <<98>>>>}
